@@ -2,7 +2,14 @@ import Driver.Util
 import SaModel.Build.Push
 import SaModel.Codec.SchemaJson
 /-
-suite `overflow` (thorough): n unit elements in one List<Null> row, n at / beyond i32::MAX.
+suite `overflow` (C05, C16), five kinds of cases (harness/src/suites/overflow.rs `gen`):
+  both tiers (the 31 cases of the quick tier, milliseconds each): `deep_term` (8 depths), `union_rows` with n = 0, 3, 1000,
+    `len_hint` (5 shapes × 4 announcements);
+  thorough tier only (36 cases in all): `list_null` with n = 2^31 - 1 and 2^31, `view_bytes` with n = 2048 and 2050,
+    `union_rows` with n = 2^31.
+Every kind gives C16 = fail exactly when the implementation's outcome class is `panic` or `hang` (an abort of the harness
+child is attributed to the case by `./check`); the C05 verdict and the comparison with the model are per kind, below.
+`list_null` (the fall-through of `handle`): n unit elements in one List<Null> row, n at / beyond i32::MAX.
 The model's answer is `incrementLast` at the boundary (theorems C05.offset_overflow_exact / _is_error):
 the n-th element is accepted iff n ≤ 2^31 - 1; beyond it the push is an error — never a panic, never a wrap.
 -/
